@@ -6,6 +6,7 @@ pub mod c12;
 pub mod c13;
 pub mod c15;
 pub mod c16;
+pub mod c17;
 pub mod c18;
 pub mod common;
 pub mod statgen;
@@ -17,6 +18,7 @@ pub fn run(id: &str, ctx: &mut Ctx) -> bool {
         "C13" => c13::run(ctx),
         "C15" => c15::run(ctx),
         "C16" => c16::run(ctx),
+        "C17" => c17::run(ctx),
         "C18" => c18::run(ctx),
         _ => return false,
     }
